@@ -1896,12 +1896,858 @@ mod zip244 {
     fn _unused(_: &S) {}
 }
 
+
+// =================================================================================================
+// roles: seeded random sequences of real role applications, logged for Trace_PcztRoles.tla
+// =================================================================================================
+
+#[derive(Clone, Copy, Debug, PartialEq, Eq)]
+enum Pool {
+    Orchard,
+    Ironwood,
+}
+impl Pool {
+    fn name(self) -> &'static str {
+        match self {
+            Pool::Orchard => "orchard",
+            Pool::Ironwood => "ironwood",
+        }
+    }
+}
+
+struct RedactDef {
+    class: String,
+    /// which list the optional index refers to: "tin", "tout", "orchard", "ironwood", "sspend", "soutput", "" (no index)
+    list: &'static str,
+    apply: fn(Redactor, Option<usize>) -> Redactor,
+    /// the cleared field is an input of the resolution of compact fields
+    note_field: bool,
+}
+
+macro_rules! red_tin {
+    ($v:ident, $m:ident, $c:literal) => {
+        $v.push(RedactDef {
+            class: format!("transparent.inputs[].{}", $c),
+            list: "tin",
+            apply: |r, idx| {
+                r.redact_transparent_with(|mut t| match idx {
+                    Some(i) => t.redact_input(i, |mut x| x.$m()),
+                    None => t.redact_inputs(|mut x| x.$m()),
+                })
+            },
+            note_field: false,
+        })
+    };
+}
+macro_rules! red_tout {
+    ($v:ident, $m:ident, $c:literal) => {
+        $v.push(RedactDef {
+            class: format!("transparent.outputs[].{}", $c),
+            list: "tout",
+            apply: |r, idx| {
+                r.redact_transparent_with(|mut t| match idx {
+                    Some(i) => t.redact_output(i, |mut x| x.$m()),
+                    None => t.redact_outputs(|mut x| x.$m()),
+                })
+            },
+            note_field: false,
+        })
+    };
+}
+macro_rules! red_act {
+    ($v:ident, $m:ident, $c:literal, $note:expr) => {
+        $v.push(RedactDef {
+            class: format!("orchard.actions[].{}", $c),
+            list: "orchard",
+            apply: |r, idx| {
+                r.redact_orchard_with(|mut o| match idx {
+                    Some(i) => o.redact_action(i, |mut x| x.$m()),
+                    None => o.redact_actions(|mut x| x.$m()),
+                })
+            },
+            note_field: $note,
+        });
+        $v.push(RedactDef {
+            class: format!("ironwood.actions[].{}", $c),
+            list: "ironwood",
+            apply: |r, idx| {
+                r.redact_ironwood_with(|mut o| match idx {
+                    Some(i) => o.redact_action(i, |mut x| x.$m()),
+                    None => o.redact_actions(|mut x| x.$m()),
+                })
+            },
+            note_field: $note,
+        })
+    };
+}
+macro_rules! red_sspend {
+    ($v:ident, $m:ident, $c:literal) => {
+        $v.push(RedactDef {
+            class: format!("sapling.spends[].{}", $c),
+            list: "sspend",
+            apply: |r, idx| {
+                r.redact_sapling_with(|mut o| match idx {
+                    Some(i) => o.redact_spend(i, |mut x| x.$m()),
+                    None => o.redact_spends(|mut x| x.$m()),
+                })
+            },
+            note_field: false,
+        })
+    };
+}
+macro_rules! red_soutput {
+    ($v:ident, $m:ident, $c:literal) => {
+        $v.push(RedactDef {
+            class: format!("sapling.outputs[].{}", $c),
+            list: "soutput",
+            apply: |r, idx| {
+                r.redact_sapling_with(|mut o| match idx {
+                    Some(i) => o.redact_output(i, |mut x| x.$m()),
+                    None => o.redact_outputs(|mut x| x.$m()),
+                })
+            },
+            note_field: false,
+        })
+    };
+}
+
+fn redactions() -> Vec<RedactDef> {
+    let mut v = vec![];
+    v.push(RedactDef {
+        class: "global.proprietary{}".into(),
+        list: "",
+        apply: |r, _| r.redact_global_with(|mut g| g.clear_proprietary()),
+        note_field: false,
+    });
+    red_tin!(v, clear_script_sig, "script_sig");
+    red_tin!(v, clear_redeem_script, "redeem_script");
+    red_tin!(v, clear_partial_signatures, "partial_signatures{}");
+    red_tin!(v, clear_bip32_derivation, "bip32_derivation{}");
+    red_tin!(v, clear_ripemd160_preimages, "ripemd160_preimages{}");
+    red_tin!(v, clear_sha256_preimages, "sha256_preimages{}");
+    red_tin!(v, clear_hash160_preimages, "hash160_preimages{}");
+    red_tin!(v, clear_hash256_preimages, "hash256_preimages{}");
+    red_tin!(v, clear_proprietary, "proprietary{}");
+    red_tout!(v, clear_redeem_script, "redeem_script");
+    red_tout!(v, clear_bip32_derivation, "bip32_derivation{}");
+    red_tout!(v, clear_user_address, "user_address");
+    red_tout!(v, clear_proprietary, "proprietary{}");
+    red_act!(v, clear_spend_auth_sig, "spend.spend_auth_sig", false);
+    red_act!(v, clear_spend_recipient, "spend.recipient", true);
+    red_act!(v, clear_spend_value, "spend.value", true);
+    red_act!(v, clear_spend_rho, "spend.rho", true);
+    red_act!(v, clear_spend_rseed, "spend.rseed", true);
+    red_act!(v, clear_spend_fvk, "spend.fvk", true);
+    red_act!(v, clear_spend_witness, "spend.witness", false);
+    red_act!(v, clear_spend_alpha, "spend.alpha", false);
+    red_act!(v, clear_spend_zip32_derivation, "spend.zip32_derivation", false);
+    red_act!(v, clear_spend_dummy_sk, "spend.dummy_sk", false);
+    red_act!(v, clear_spend_proprietary, "spend.proprietary{}", false);
+    red_act!(v, clear_output_recipient, "output.recipient", true);
+    red_act!(v, clear_output_value, "output.value", true);
+    red_act!(v, clear_output_rseed, "output.rseed", true);
+    red_act!(v, clear_output_ock, "output.ock", false);
+    red_act!(v, clear_output_zip32_derivation, "output.zip32_derivation", false);
+    red_act!(v, clear_output_user_address, "output.user_address", false);
+    red_act!(v, clear_output_proprietary, "output.proprietary{}", false);
+    red_act!(v, clear_rcv, "rcv", true);
+    red_sspend!(v, clear_zkproof, "zkproof");
+    red_sspend!(v, clear_spend_auth_sig, "spend_auth_sig");
+    red_sspend!(v, clear_recipient, "recipient");
+    red_sspend!(v, clear_value, "value");
+    red_sspend!(v, clear_rcm, "rcm");
+    red_sspend!(v, clear_rseed, "rseed");
+    red_sspend!(v, clear_rcv, "rcv");
+    red_sspend!(v, clear_proof_generation_key, "proof_generation_key");
+    red_sspend!(v, clear_witness, "witness");
+    red_sspend!(v, clear_alpha, "alpha");
+    red_sspend!(v, clear_zip32_derivation, "zip32_derivation");
+    red_sspend!(v, clear_dummy_ask, "dummy_ask");
+    red_sspend!(v, clear_proprietary, "proprietary{}");
+    red_soutput!(v, clear_zkproof, "zkproof");
+    red_soutput!(v, clear_recipient, "recipient");
+    red_soutput!(v, clear_value, "value");
+    red_soutput!(v, clear_rseed, "rseed");
+    red_soutput!(v, clear_rcv, "rcv");
+    red_soutput!(v, clear_ock, "ock");
+    red_soutput!(v, clear_zip32_derivation, "zip32_derivation");
+    red_soutput!(v, clear_user_address, "user_address");
+    red_soutput!(v, clear_proprietary, "proprietary{}");
+    for (cl, f) in [
+        ("orchard.zkproof", (|r, _| r.redact_orchard_with(|mut o| o.clear_zkproof())) as fn(Redactor, Option<usize>) -> Redactor),
+        ("orchard.bsk", |r, _| r.redact_orchard_with(|mut o| o.clear_bsk())),
+        ("orchard.anchor", |r, _| r.redact_orchard_with(|mut o| o.clear_anchor())),
+        ("ironwood.zkproof", |r, _| r.redact_ironwood_with(|mut o| o.clear_zkproof())),
+        ("ironwood.bsk", |r, _| r.redact_ironwood_with(|mut o| o.clear_bsk())),
+        ("ironwood.anchor", |r, _| r.redact_ironwood_with(|mut o| o.clear_anchor())),
+        ("sapling.bsk", |r, _| r.redact_sapling_with(|mut o| o.clear_bsk())),
+        ("sapling.anchor", |r, _| r.redact_sapling_with(|mut o| o.clear_anchor())),
+    ] {
+        v.push(RedactDef { class: cl.into(), list: "", apply: f, note_field: false });
+    }
+    v
+}
+
+#[derive(Clone, Debug)]
+enum Op {
+    UpdGlobal { tag: u8 },
+    /// f: 0 proprietary, 1 bip32 derivation, 2..5 ripemd160 / sha256 / hash160 / hash256 preimage
+    UpdTin { i: usize, f: u8, tag: u8 },
+    /// f: 0 proprietary, 1 user address, 2 bip32 derivation
+    UpdTout { j: usize, f: u8, tag: u8 },
+    /// f: 0 spend proprietary, 1 output proprietary, 2 output user address, 3 spend zip32, 4 output zip32
+    UpdAct { pool: Pool, i: usize, f: u8, tag: u8 },
+    SignT { i: usize },
+    SignAct { pool: Pool },
+    Redact { r: usize, idx: Option<usize> },
+    Compact { pool: Pool },
+    Resolve,
+    Verify { which: u8 },
+    Finalize,
+    Combine { from: usize },
+    Reparse,
+    SetAnchor { pool: Pool },
+    SetWitness,
+    Prove { pool: Pool },
+}
+
+fn tin_class(f: u8) -> &'static str {
+    ["transparent.inputs[].proprietary{}", "transparent.inputs[].bip32_derivation{}", "transparent.inputs[].ripemd160_preimages{}",
+     "transparent.inputs[].sha256_preimages{}", "transparent.inputs[].hash160_preimages{}", "transparent.inputs[].hash256_preimages{}"][f as usize]
+}
+fn tout_class(f: u8) -> &'static str {
+    ["transparent.outputs[].proprietary{}", "transparent.outputs[].user_address", "transparent.outputs[].bip32_derivation{}"][f as usize]
+}
+fn act_class(pool: Pool, f: u8) -> String {
+    format!(
+        "{}.actions[].{}",
+        pool.name(),
+        ["spend.proprietary{}", "output.proprietary{}", "output.user_address", "spend.zip32_derivation", "output.zip32_derivation"][f as usize]
+    )
+}
+
+struct ProvingKeys {
+    orchard_v5: Option<orchard::circuit::ProvingKey>,
+    orchard_v6: Option<orchard::circuit::ProvingKey>,
+}
+
+impl Op {
+    /// (role, argument) as Trace_PcztRoles names them
+    fn role(&self, reds: &[RedactDef]) -> (&'static str, String) {
+        match self {
+            Op::UpdGlobal { .. } => ("update", "global.proprietary{}".into()),
+            Op::UpdTin { f, .. } => ("update", tin_class(*f).into()),
+            Op::UpdTout { f, .. } => ("update", tout_class(*f).into()),
+            Op::UpdAct { pool, f, .. } => ("update", act_class(*pool, *f)),
+            Op::SignT { .. } => ("sign_t", "".into()),
+            Op::SignAct { pool } => ("sign_s", pool.name().into()),
+            Op::Redact { r, .. } => ("redact", reds[*r].class.clone()),
+            Op::Compact { pool } => ("compact", pool.name().into()),
+            Op::Resolve => ("resolve", "".into()),
+            Op::Verify { .. } => ("verify", "".into()),
+            Op::Finalize => ("finalize", "".into()),
+            Op::Combine { .. } => ("combine", "".into()),
+            Op::Reparse => ("reparse", "".into()),
+            Op::SetAnchor { pool } => ("set_anchor", pool.name().into()),
+            Op::SetWitness => ("set_witness", "orchard".into()),
+            Op::Prove { pool } => ("prove", pool.name().into()),
+        }
+    }
+
+    fn describe(&self) -> J {
+        json!(format!("{self:?}"))
+    }
+
+    /// Applies the real role. Err = the role refused.
+    fn apply(&self, base: &Base, reds: &[RedactDef], keys: &ProvingKeys, p: Pczt, others: &[Pczt]) -> Result<Pczt, String> {
+        let e = |x: &dyn std::fmt::Debug| format!("{x:?}");
+        match self {
+            Op::UpdGlobal { tag } => Ok(Updater::new(p).update_global_with(|mut g| g.set_proprietary("verif.key0".into(), vec![*tag])).finish()),
+            Op::UpdTin { i, f, tag } => Updater::new(p)
+                .update_transparent_with(|mut u| {
+                    u.update_input_with(*i, |mut x| {
+                        match f {
+                            0 => x.set_proprietary("verif.key0".into(), vec![*tag]),
+                            1 => x.set_bip32_derivation(
+                                [0xA0; 33],
+                                zcash_transparent::pczt::Bip32Derivation::parse([*tag; 32], vec![44 | (1 << 31), *tag as u32]).expect("derivation"),
+                            ),
+                            2 => x.set_ripemd160_preimage(vec![*tag; 5]),
+                            3 => x.set_sha256_preimage(vec![*tag; 5]),
+                            4 => x.set_hash160_preimage(vec![*tag; 5]),
+                            _ => x.set_hash256_preimage(vec![*tag; 5]),
+                        }
+                        Ok(())
+                    })
+                })
+                .map(|u| u.finish())
+                .map_err(|x| e(&x)),
+            Op::UpdTout { j, f, tag } => Updater::new(p)
+                .update_transparent_with(|mut u| {
+                    u.update_output_with(*j, |mut x| {
+                        match f {
+                            0 => x.set_proprietary("verif.key0".into(), vec![*tag]),
+                            1 => x.set_user_address(format!("verif-address-{tag}")),
+                            _ => x.set_bip32_derivation(
+                                [0xA1; 33],
+                                zcash_transparent::pczt::Bip32Derivation::parse([*tag; 32], vec![44 | (1 << 31), *tag as u32]).expect("derivation"),
+                            ),
+                        }
+                        Ok(())
+                    })
+                })
+                .map(|u| u.finish())
+                .map_err(|x| e(&x)),
+            Op::UpdAct { pool, i, f, tag } => {
+                let upd = |mut u: orchard::pczt::Updater<'_>| {
+                    u.update_action_with(*i, |mut x| {
+                        let z = || orchard::pczt::Zip32Derivation::parse([*tag; 32], vec![32 | (1 << 31), 133 | (1 << 31), (*tag as u32) | (1 << 31)]).expect("zip32");
+                        match f {
+                            0 => x.set_spend_proprietary("verif.key0".into(), vec![*tag]),
+                            1 => x.set_output_proprietary("verif.key0".into(), vec![*tag]),
+                            2 => x.set_output_user_address(format!("verif-address-{tag}")),
+                            3 => x.set_spend_zip32_derivation(z()),
+                            _ => x.set_output_zip32_derivation(z()),
+                        }
+                        Ok(())
+                    })
+                };
+                match pool {
+                    Pool::Orchard => Updater::new(p).update_orchard_with(upd).map(|u| u.finish()).map_err(|x| e(&x)),
+                    Pool::Ironwood => Updater::new(p).update_ironwood_with(upd).map(|u| u.finish()).map_err(|x| e(&x)),
+                }
+            }
+            Op::SignT { i } => {
+                let mut s = Signer::new(p).map_err(|x| e(&x))?;
+                s.sign_transparent(*i, &base.tkeys[*i]).map_err(|x| e(&x))?;
+                Ok(s.finish())
+            }
+            Op::SignAct { pool } => {
+                let mut s = Signer::new(p).map_err(|x| e(&x))?;
+                match pool {
+                    Pool::Orchard => {
+                        let (i, ask) = base.orchard_ask.as_ref().ok_or("no orchard spend")?;
+                        s.sign_orchard(*i, ask).map_err(|x| e(&x))?
+                    }
+                    Pool::Ironwood => {
+                        let (i, ask) = base.ironwood_ask.as_ref().ok_or("no ironwood spend")?;
+                        s.sign_ironwood(*i, ask).map_err(|x| e(&x))?
+                    }
+                }
+                Ok(s.finish())
+            }
+            Op::Redact { r, idx } => Ok((reds[*r].apply)(Redactor::new(p), *idx).finish()),
+            Op::Compact { pool } => Ok(match pool {
+                Pool::Orchard => Redactor::new(p).redact_orchard_with(|mut o| o.compact_resolvable_fields()).finish(),
+                Pool::Ironwood => Redactor::new(p).redact_ironwood_with(|mut o| o.compact_resolvable_fields()).finish(),
+            }),
+            Op::Resolve => {
+                let mut p = p;
+                p.resolve_fields().map_err(|x| e(&x))?;
+                Ok(p)
+            }
+            Op::Verify { which } => match which {
+                0 => Verifier::new(p).with_transparent::<(), _>(|_| Ok(())).map(|v| v.finish()).map_err(|_| "verifier".to_string()),
+                1 => Verifier::new(p).with_orchard::<(), _>(|_| Ok(())).map(|v| v.finish()).map_err(|_| "verifier".to_string()),
+                2 => Verifier::new(p).with_ironwood::<(), _>(|_| Ok(())).map(|v| v.finish()).map_err(|_| "verifier".to_string()),
+                _ => Verifier::new(p).with_sapling::<(), _>(|_| Ok(())).map(|v| v.finish()).map_err(|_| "verifier".to_string()),
+            },
+            Op::Finalize => SpendFinalizer::new(p).finalize_spends().map_err(|x| e(&x)),
+            Op::Combine { from } => Combiner::new(vec![p, others[*from].clone()]).combine().map_err(|_| "conflict".to_string()),
+            Op::Reparse => {
+                let b = p.serialize().map_err(|x| e(&x))?;
+                Pczt::parse(&b).map_err(|x| e(&x))
+            }
+            Op::SetAnchor { pool } => {
+                let (anchor, _, _) = base.deferred.as_ref().ok_or("no deferred anchor")?;
+                match pool {
+                    Pool::Orchard => Updater::new(p).set_orchard_anchor(*anchor).map(|u| u.finish()).map_err(|x| e(&x)),
+                    Pool::Ironwood => Updater::new(p).set_ironwood_anchor(orchard::Anchor::empty_tree()).map(|u| u.finish()).map_err(|x| e(&x)),
+                }
+            }
+            Op::SetWitness => {
+                let (_, i, path) = base.deferred.as_ref().ok_or("no deferred witness")?;
+                Updater::new(p).set_orchard_spend_witnesses([(*i, path.clone())]).map(|u| u.finish()).map_err(|x| e(&x))
+            }
+            Op::Prove { pool } => {
+                let v6 = *p.global().tx_version() == 6;
+                let pk = if v6 { keys.orchard_v6.as_ref() } else { keys.orchard_v5.as_ref() }.ok_or("no proving key in this tier")?;
+                match pool {
+                    Pool::Orchard => Prover::new(p).create_orchard_proof(pk).map(|x| x.finish()).map_err(|x| e(&x)),
+                    Pool::Ironwood => Prover::new(p).create_ironwood_proof(pk).map(|x| x.finish()).map_err(|x| e(&x)),
+                }
+            }
+        }
+    }
+}
+
+/// The projection of a PCZT that Trace_PcztRoles judges, and its decoded logical value.
+fn project(p: &Pczt) -> Result<(J, V), String> {
+    let bytes = guarded(|| p.clone().serialize()).map_err(|m| format!("serialize panicked: {m}"))?.map_err(|x| format!("serialize failed: {x:?}"))?;
+    let (enc, l) = decode_pczt(&bytes).map_err(|x| format!("own decoder rejects the serialisation: {x}"))?;
+    let own = canonical_bytes(&l) == bytes;
+    let rt = match guarded(|| Pczt::parse(&bytes).ok().and_then(|q| q.serialize().ok())) {
+        Ok(Some(b2)) => b2 == bytes,
+        _ => false,
+    };
+    let txid = match guarded(|| pczt_txid(p)) {
+        Ok(Ok(t)) => t.to_string(),
+        Ok(Err(_)) => "err".into(),
+        Err(_) => "panic".into(),
+    };
+    let tx = zip244::Tx::new(&l);
+    let z244 = match tx.txid() {
+        Some(mut t) => {
+            t.reverse();
+            hex(&t) == txid
+        }
+        None => true,
+    };
+    let sl = s_pczt(Form::Logical);
+    let g = l.field(&sl, "global");
+    let flags = g.field(&s_global(), "tx_modifiable").u();
+    // public getters against the decoded value
+    let gg = p.global();
+    let get = *gg.tx_version() as u64 == g.field(&s_global(), "tx_version").u()
+        && *gg.expiry_height() as u64 == g.field(&s_global(), "expiry_height").u()
+        && gg.inputs_modifiable() == (flags & 1 != 0)
+        && gg.outputs_modifiable() == (flags & 2 != 0)
+        && gg.has_sighash_single() == (flags & 4 != 0)
+        && gg.shielded_modifiable() == (flags & 128 != 0)
+        && p.transparent().inputs().len() == at(&l, &P_TIN).seq().len()
+        && p.transparent().outputs().len() == at(&l, &P_TOUT).seq().len()
+        && p.orchard().actions().len() == at(&l, &P_ACT).seq().len()
+        && gg.proprietary().len() == match g.field(&s_global(), "proprietary") { V::Map(m) => m.len(), _ => 0 };
+    // v1-representability through the public getters (not through the serialisation)
+    let iw = p.ironwood();
+    let iron = !(iw.actions().is_empty() && iw.anchor().is_none() && iw.zkproof().is_none() && *iw.flags() == 7 && *iw.value_sum() == (0, false))
+        || *l.field(&sl, "ironwood") != empty_orchard(true);
+    let o = p.orchard();
+    let nv2 = *l.field(&sl, "orchard").field(&s_orchard(Form::Logical), "note_version") == V::Enum(0, Box::new(V::Rec(vec![])));
+    let oanchor = o.anchor().is_some() || o.actions().is_empty();
+    let sanchor = p.sapling().anchor().is_some() || p.sapling().spends().is_empty();
+    let cvcmx = o.actions().iter().all(|a| a.cv_net().is_some() && a.output().cmx().is_some());
+    let memo = o.actions().iter().all(|a| matches!(a.output().enc_ciphertext(), pczt::orchard::EncCiphertext::Encrypted(_)));
+    // transparent signatures: present ones must verify under the own ZIP 244 digest
+    let st = s_tin();
+    let secp = secp256k1::Secp256k1::verification_only();
+    let mut sigs = vec![];
+    let mut sigok = true;
+    for (i, inp) in at(&l, &P_TIN).seq().iter().enumerate() {
+        if let V::Map(m) = inp.field(&st, "partial_signatures") {
+            if !m.is_empty() {
+                sigs.push(i as u64 + 1);
+            }
+            for (k, v) in m {
+                let sig = v.bytes();
+                let ht = inp.field(&st, "sighash_type").u() as u8;
+                if let Some(d) = tx.transparent_sighash(i, ht) {
+                    let ok = !sig.is_empty()
+                        && sig[sig.len() - 1] == ht
+                        && secp256k1::PublicKey::from_slice(k.bytes())
+                            .ok()
+                            .zip(secp256k1::ecdsa::Signature::from_der(&sig[..sig.len() - 1]).ok())
+                            .is_some_and(|(pk, s)| secp.verify_ecdsa(&secp256k1::Message::from_digest(d), &s, &pk).is_ok());
+                    sigok &= ok;
+                }
+            }
+        }
+    }
+    let v6 = g.field(&s_global(), "tx_version").u() == 6;
+    Ok((
+        json!({"flags": flags, "txid": txid, "enc": enc, "txv6": v6, "iron": iron, "nv2": nv2, "oanchor": oanchor, "sanchor": sanchor,
+               "cvcmx": cvcmx, "memo": memo, "rt": rt, "own": own, "get": get, "z244": z244, "sigok": sigok, "sigs": sigs}),
+        l,
+    ))
+}
+
+/// The v1 encoding has no absent Sapling anchor: on a bundle without spends the all-zero anchor and
+/// the absent one are the same value (sapling.rs, `DEFAULT_ANCHOR`). Observed through the
+/// serialisation they must not show up as a write.
+fn observed_slots(l: &V) -> BTreeMap<String, (String, Slot)> {
+    let mut m = slots_of(l);
+    let no_spends = at(l, &[Step::F(2), Step::F(0)]).seq().is_empty();
+    if let Some(e) = m.get_mut("sapling.anchor") {
+        if no_spends && e.1 == Slot::Val(hex(&ZERO32)) {
+            e.1 = Slot::Absent;
+        }
+    }
+    m
+}
+
+fn changes(pre: &V, post: &V) -> Vec<J> {
+    let (a, b) = (observed_slots(pre), observed_slots(post));
+    let mut out: BTreeSet<(String, &'static str)> = BTreeSet::new();
+    for k in a.keys().chain(b.keys()).collect::<BTreeSet<_>>() {
+        let x = a.get(k);
+        let y = b.get(k);
+        let present = |s: Option<&(String, Slot)>| matches!(s, Some((_, Slot::Val(_))));
+        let class = x.or(y).unwrap().0.clone();
+        match (present(x), present(y)) {
+            (false, true) => {
+                out.insert((class, "add"));
+            }
+            (true, false) => {
+                out.insert((class, "del"));
+            }
+            (true, true) if x.unwrap().1 != y.unwrap().1 => {
+                out.insert((class, "mod"));
+            }
+            _ => {}
+        }
+    }
+    out.into_iter().map(|(c, d)| json!({"c": c, "d": d})).collect()
+}
+
+/// Own count of the slots on which two copies have no upper bound (flat slots both present and
+/// different, or an agreed-on slot that differs). `tx_modifiable` is judged by the trace spec.
+fn conflicts(a: &V, b: &V) -> usize {
+    let (x, y) = (observed_slots(a), observed_slots(b));
+    let mut n = 0;
+    for (k, (c, sa)) in &x {
+        if c == "global.tx_modifiable" {
+            continue;
+        }
+        match (sa, y.get(k).map(|s| &s.1)) {
+            (Slot::Val(p), Some(Slot::Val(q))) if p != q => n += 1,
+            _ => {}
+        }
+    }
+    // an optional effect the other side lacks (fallback_lock_time: None vs Some) is a conflict too
+    let lock = |l: &V| at(l, &P_LOCK).clone();
+    if lock(a) != lock(b) && (lock(a) == none() || lock(b) == none()) {
+        n += 1;
+    }
+    n
+}
+
+fn list_len(l: &V, list: &str) -> usize {
+    match list {
+        "tin" => at(l, &P_TIN).seq().len(),
+        "tout" => at(l, &P_TOUT).seq().len(),
+        "orchard" => at(l, &P_ACT).seq().len(),
+        "ironwood" => at(l, &[Step::F(4), Step::F(0)]).seq().len(),
+        "sspend" => at(l, &[Step::F(2), Step::F(0)]).seq().len(),
+        "soutput" => at(l, &[Step::F(2), Step::F(1)]).seq().len(),
+        _ => 0,
+    }
+}
+
+/// A variant of the transparent base: per-input sighash types, an input that requires a lock time,
+/// modifiable flags -- set through the encoding on the Creator's output, before IO finalisation.
+fn vary_transparent(base: &Base, rng: &mut ChaCha20Rng) -> Base {
+    let mut l = logical_of(&base.pre);
+    let st = s_tin();
+    let S::Rec(names) = &st else { unreachable!() };
+    let pos = |n: &str| names.iter().position(|(x, _)| *x == n).unwrap();
+    let n_in = at(&l, &P_TIN).seq().len();
+    for i in 0..n_in {
+        let ht = *[1u8, 1, 2, 3, 0x81, 0x82, 0x83].choose(rng).unwrap();
+        let V::Rec(fs) = at_mut(&mut l, &[Step::F(1), Step::F(0), Step::I(i)]) else { unreachable!() };
+        fs[pos("sighash_type")] = V::U(ht as u64);
+        if rng.gen_bool(0.4) {
+            fs[pos("sequence")] = some(V::U(0xffff_fffe));
+            if rng.gen_bool(0.5) {
+                fs[pos("required_height_lock_time")] = some(V::U(rng.gen_range(1..400_000_000)));
+            } else {
+                fs[pos("required_time_lock_time")] = some(V::U(rng.gen_range(500_000_000..1_700_000_000)));
+            }
+        }
+    }
+    // the Creator of a PCZT that is still being constructed sets the modifiable bits
+    let any_single = at(&l, &P_TIN).seq().iter().any(|i| i.field(&st, "sighash_type").u() & 0x7f == 3);
+    *at_mut(&mut l, &P_FLAGS) = V::U(*[0x83u64, 0x83, 0x03, 0x81, 0x00].choose(rng).unwrap() | if any_single { 4 } else { 0 });
+    if rng.gen_bool(0.3) {
+        *at_mut(&mut l, &P_LOCK) = if rng.gen_bool(0.5) { none() } else { some(V::U(rng.gen_range(1..1000))) };
+    }
+    // inputs that name different kinds of lock time cannot be combined in one transaction
+    if zip244::Tx::new(&l).lock_time().is_none() {
+        return vary_transparent(base, rng);
+    }
+    let pre = Pczt::parse(&canonical_bytes(&l)).expect("variant parses");
+    let pczt = IoFinalizer::new(pre.clone()).finalize_io().expect("io finalizer");
+    Base { name: base.name, pre, pczt, tkeys: base.tkeys.clone(), orchard_ask: None, ironwood_ask: None, sapling_ask: None, deferred: None }
+}
+
+fn pick_op(rng: &mut ChaCha20Rng, base: &Base, reds: &[RedactDef], l: &V, ncopies: usize, me: usize, keys: &ProvingKeys) -> Op {
+    let n_in = list_len(l, "tin");
+    let n_out = list_len(l, "tout");
+    let n_act = list_len(l, "orchard");
+    let n_iw = list_len(l, "ironwood");
+    let compact = {
+        let (sa, so) = (s_action(Form::Logical), s_ooutput(Form::Logical));
+        [P_ACT.to_vec(), vec![Step::F(4), Step::F(0)]].iter().any(|p| {
+            at(l, p).seq().iter().any(|a| {
+                a.field(&sa, "cv_net").opt().is_none()
+                    || a.field(&sa, "output").field(&so, "cmx").opt().is_none()
+                    || !matches!(a.field(&sa, "output").field(&so, "enc_ciphertext"), V::Enum(0, _))
+            })
+        })
+    };
+    let v6 = at(l, &[Step::F(0), Step::F(0)]).u() == 6;
+    loop {
+        let tag = rng.gen_range(1..=2u8);
+        let op = match rng.gen_range(0..20) {
+            0 => Op::UpdGlobal { tag },
+            1 | 2 if n_in > 0 => Op::UpdTin { i: rng.gen_range(0..n_in), f: rng.gen_range(0..6), tag },
+            3 if n_out > 0 => Op::UpdTout { j: rng.gen_range(0..n_out), f: rng.gen_range(0..3), tag },
+            4 if n_act > 0 => Op::UpdAct { pool: Pool::Orchard, i: rng.gen_range(0..n_act), f: rng.gen_range(0..5), tag },
+            4 | 5 if n_iw > 0 => Op::UpdAct { pool: Pool::Ironwood, i: rng.gen_range(0..n_iw), f: rng.gen_range(0..5), tag },
+            5..=8 if n_in > 0 => Op::SignT { i: rng.gen_range(0..n_in) },
+            6 | 7 if base.orchard_ask.is_some() => Op::SignAct { pool: Pool::Orchard },
+            9..=11 => {
+                let r = rng.gen_range(0..reds.len());
+                let d = &reds[r];
+                let n = list_len(l, d.list);
+                if !d.list.is_empty() && n == 0 {
+                    continue;
+                }
+                // (documented precondition) a compact field can only be re-derived while its note fields
+                // are there; anchors are authorising data only in a v6 transaction
+                if d.note_field && compact {
+                    continue;
+                }
+                if d.class.ends_with(".anchor") && !v6 {
+                    continue;
+                }
+                // (documented parse rule of the orchard crate) "`rho` must be provided whenever `rseed`
+                // is provided": rho goes only after rseed
+                if d.class.ends_with("spend.rho") {
+                    let pool_path: Vec<Step> = if d.list == "orchard" { P_ACT.to_vec() } else { vec![Step::F(4), Step::F(0)] };
+                    let (sa, sp) = (s_action(Form::Logical), s_ospend(Form::Logical));
+                    if at(l, &pool_path).seq().iter().any(|a| a.field(&sa, "spend").field(&sp, "rseed").opt().is_some()) {
+                        continue;
+                    }
+                }
+                Op::Redact { r, idx: if d.list.is_empty() || rng.gen_bool(0.3) { None } else { Some(rng.gen_range(0..n)) } }
+            }
+            12 if n_act > 0 => Op::Compact { pool: Pool::Orchard },
+            12 if n_iw > 0 => Op::Compact { pool: Pool::Ironwood },
+            13 if n_act + n_iw > 0 => Op::Resolve,
+            14 => Op::Verify { which: rng.gen_range(0..4) },
+            15 if n_in > 0 => Op::Finalize,
+            16 | 17 if ncopies > 1 => {
+                let from = (me + rng.gen_range(1..ncopies)) % ncopies;
+                Op::Combine { from }
+            }
+            18 => Op::Reparse,
+            19 if base.deferred.is_some() => match rng.gen_range(0..3) {
+                0 => Op::SetAnchor { pool: Pool::Orchard },
+                1 => Op::SetAnchor { pool: Pool::Ironwood },
+                _ => Op::SetWitness,
+            },
+            19 if keys.orchard_v5.is_some() && n_act > 0 && !v6 => Op::Prove { pool: Pool::Orchard },
+            _ => continue,
+        };
+        return op;
+    }
+}
+
+fn event(a: &str, cp: usize, arg: &str, oc: &str, pre: &J, post: &J, ch: Vec<J>) -> J {
+    json!({"a": a, "cp": cp, "arg": arg, "i": 0, "ht": 0, "oc": oc, "pre": pre, "post": post, "ch": ch,
+           "oflags": 0, "ncf": 0, "noop": false, "txid_tx": "", "fields": true, "op": ""})
+}
+
+/// Own comparison of an extracted transaction with the effect slots of the PCZT it came from.
+fn tx_matches_effects(tx: &zcash_primitives::transaction::Transaction, l: &V) -> bool {
+    let z = zip244::Tx::new(l);
+    let st = s_tin();
+    let so = s_tout();
+    let mut ok = Some(tx.lock_time()) == z.lock_time()
+        && u32::from(tx.expiry_height()) as u64 == at(l, &[Step::F(0), Step::F(4)]).u();
+    let (ins, outs) = (at(l, &P_TIN).seq(), at(l, &P_TOUT).seq());
+    match tx.transparent_bundle() {
+        None => ok &= ins.is_empty() && outs.is_empty(),
+        Some(b) => {
+            ok &= b.vin.len() == ins.len() && b.vout.len() == outs.len();
+            for (txin, i) in b.vin.iter().zip(ins) {
+                ok &= txin.prevout().hash()[..] == *i.field(&st, "prevout_txid").bytes()
+                    && txin.prevout().n() as u64 == i.field(&st, "prevout_index").u()
+                    && txin.sequence() as u64 == i.field(&st, "sequence").opt().map(|v| v.u()).unwrap_or(0xffff_ffff);
+            }
+            for (txout, o) in b.vout.iter().zip(outs) {
+                ok &= u64::from(txout.value()) == o.field(&so, "value").u()
+                    && txout.script_pubkey().0.0 == o.field(&so, "script_pubkey").bytes();
+            }
+        }
+    }
+    ok &= tx.orchard_bundle().map(|b| b.actions().len()).unwrap_or(0) == at(l, &P_ACT).seq().len();
+    ok
+}
+
+/// One sequence: io-finalise, fork, random roles on the copies, final combine + sign + finalise + extract.
+fn run_sequence(w: &mut NdjsonWriter, rng: &mut ChaCha20Rng, base: &Base, reds: &[RedactDef], keys: &ProvingKeys, steps: usize, ops_log: &mut Vec<J>, stats: &mut BTreeMap<String, usize>) -> Result<(), String> {
+    let ncopies = 3;
+    let (pre_j, pre_l) = project(&base.pre)?;
+    let (post_j, post_l) = project(&base.pczt)?;
+    let mut ev = event("io_finalize", 0, base.name, "ok", &pre_j, &post_j, changes(&pre_l, &post_l));
+    let shielded = list_len(&pre_l, "orchard") + list_len(&pre_l, "ironwood") + list_len(&pre_l, "sspend") + list_len(&pre_l, "soutput") > 0;
+    ev["i"] = json!(if shielded { 1 } else { 0 });
+    ev["ht"] = json!(ncopies);
+    w.emit(&ev);
+    let mut copies: Vec<Pczt> = vec![base.pczt.clone(); ncopies];
+    let mut proj: Vec<(J, V)> = vec![(post_j, post_l); ncopies];
+    // copy 0 is the coordinator's: it is never redacted, so the final combination has everything
+    for _ in 0..steps {
+        let me = rng.gen_range(0..ncopies);
+        let mut op = pick_op(rng, base, reds, &proj[me].1, ncopies, me, keys);
+        if me == 0 && matches!(op, Op::Redact { .. } | Op::Compact { .. }) {
+            op = Op::Reparse;
+        }
+        apply_logged(w, base, reds, keys, &mut copies, &mut proj, me, &op, ops_log, stats)?;
+    }
+    // closing: bring everything into copy 0, complete the signatures, finalise, extract
+    let mut closing: Vec<Op> = (1..ncopies).map(|c| Op::Combine { from: c }).collect();
+    if base.deferred.is_some() {
+        closing.extend([Op::SetAnchor { pool: Pool::Orchard }, Op::SetAnchor { pool: Pool::Ironwood }, Op::SetWitness]);
+    }
+    closing.push(Op::Resolve);
+    for i in 0..base.tkeys.len() {
+        closing.push(Op::SignT { i });
+    }
+    if base.orchard_ask.is_some() {
+        closing.push(Op::SignAct { pool: Pool::Orchard });
+    }
+    if keys.orchard_v5.is_some() || keys.orchard_v6.is_some() {
+        if list_len(&proj[0].1, "orchard") > 0 {
+            closing.push(Op::Prove { pool: Pool::Orchard });
+        }
+        if list_len(&proj[0].1, "ironwood") > 0 {
+            closing.push(Op::Prove { pool: Pool::Ironwood });
+        }
+    }
+    if !base.tkeys.is_empty() {
+        closing.push(Op::Finalize);
+    }
+    let mut all_ok = true;
+    for op in closing {
+        all_ok &= apply_logged(w, base, reds, keys, &mut copies, &mut proj, 0, &op, ops_log, stats)?;
+    }
+    let needs_proof = list_len(&proj[0].1, "orchard") + list_len(&proj[0].1, "ironwood") > 0;
+    let have_proof = keys.orchard_v5.is_some() || keys.orchard_v6.is_some();
+    if all_ok && (!needs_proof || have_proof) {
+        let p = copies[0].clone();
+        let (pj, pl) = (&proj[0].0, &proj[0].1);
+        let mut ev = event("extract", 1, "", "ok", pj, pj, vec![]);
+        match guarded(|| TransactionExtractor::new(p).extract()) {
+            Ok(Ok(tx)) => {
+                ev["txid_tx"] = json!(tx.txid().to_string());
+                let own = zip244::Tx::new(pl).txid().map(|mut t| {
+                    t.reverse();
+                    hex(&t)
+                });
+                ev["fields"] = json!(tx_matches_effects(&tx, pl) && own.map(|o| o == tx.txid().to_string()).unwrap_or(true));
+                *stats.entry("extracted".into()).or_insert(0) += 1;
+            }
+            Ok(Err(e)) => {
+                ev["oc"] = json!("err");
+                ev["op"] = json!(format!("{e:?}"));
+                *stats.entry("extract_refused".into()).or_insert(0) += 1;
+            }
+            Err(m) => {
+                ev["oc"] = json!("panic");
+                ev["op"] = json!(m);
+            }
+        }
+        w.emit(&ev);
+    } else {
+        *stats.entry("not_extractable".into()).or_insert(0) += 1;
+    }
+    Ok(())
+}
+
+/// Applies one op to copy `me`, logs the event. Returns whether the role succeeded.
+fn apply_logged(w: &mut NdjsonWriter, base: &Base, reds: &[RedactDef], keys: &ProvingKeys, copies: &mut [Pczt], proj: &mut [(J, V)], me: usize, op: &Op, ops_log: &mut Vec<J>, stats: &mut BTreeMap<String, usize>) -> Result<bool, String> {
+    let (role, arg) = op.role(reds);
+    ops_log.push(json!({"cp": me, "op": op.describe()}));
+    let p = copies[me].clone();
+    let others: Vec<Pczt> = copies.to_vec();
+    let res = guarded(|| op.apply(base, reds, keys, p, &others));
+    let (pre_j, pre_l) = proj[me].clone();
+    let mut ev = event(role, me + 1, &arg, "ok", &pre_j, &pre_j, vec![]);
+    ev["op"] = op.describe();
+    if let Op::SignT { i } = op {
+        ev["i"] = json!(*i + 1);
+        ev["ht"] = json!(at(&pre_l, &[Step::F(1), Step::F(0), Step::I(*i)]).field(&s_tin(), "sighash_type").u());
+    }
+    if let Op::Combine { from } = op {
+        ev["oflags"] = json!(proj[*from].0["flags"]);
+        ev["ncf"] = json!(conflicts(&pre_l, &proj[*from].1));
+    }
+    *stats.entry(format!("{role}")).or_insert(0) += 1;
+    let ok = match res {
+        Ok(Ok(q)) => {
+            let (post_j, post_l) = project(&q)?;
+            ev["post"] = post_j.clone();
+            let ch = changes(&pre_l, &post_l);
+            ev["noop"] = json!(ch.is_empty());
+            ev["ch"] = json!(ch);
+            copies[me] = q;
+            proj[me] = (post_j, post_l);
+            true
+        }
+        Ok(Err(e)) => {
+            ev["oc"] = json!(if e == "conflict" { "conflict" } else { "err" });
+            *stats.entry(format!("{role}:{}", if e == "conflict" { "conflict" } else { "err" })).or_insert(0) += 1;
+            false
+        }
+        Err(m) => {
+            ev["oc"] = json!("panic");
+            ev["op"] = json!(format!("{op:?}: {m}"));
+            false
+        }
+    };
+    w.emit(&ev);
+    Ok(ok)
+}
+
+fn cmd_roles(trace_path: &str, nseq: usize, tier: &str) {
+    let seed = seed_from_env();
+    let mut rng = ChaCha20Rng::seed_from_u64(seed.wrapping_mul(0x9E37_79B9).wrapping_add(13));
+    let reds = redactions();
+    let keys = if tier == "thorough" {
+        ProvingKeys {
+            orchard_v5: Some(orchard::circuit::ProvingKey::build(orchard::circuit::OrchardCircuitVersion::FixedPostNu6_2)),
+            orchard_v6: Some(orchard::circuit::ProvingKey::build(orchard::circuit::OrchardCircuitVersion::PostNu6_3)),
+        }
+    } else {
+        ProvingKeys { orchard_v5: None, orchard_v6: None }
+    };
+    let bases = bases_for(tier, seed);
+    let mut w = NdjsonWriter::create(trace_path);
+    let mut stats: BTreeMap<String, usize> = BTreeMap::new();
+    let mut seqs = vec![];
+    let mut failure: Option<J> = None;
+    for sidx in 0..nseq {
+        // mostly the transparent base (extractable without proofs), in many variants
+        let which = if tier == "thorough" { sidx % 4 } else { [0, 0, 0, 1, 0, 2, 0, 3][sidx % 8] };
+        let varied;
+        let base = if which == 0 {
+            varied = vary_transparent(&bases[0], &mut rng);
+            &varied
+        } else {
+            &bases[which]
+        };
+        let steps = if which == 0 { rng.gen_range(4..14) } else { rng.gen_range(3..9) };
+        let mut ops_log = vec![];
+        let start = w.1;
+        if let Err(e) = run_sequence(&mut w, &mut rng, base, &reds, &keys, steps, &mut ops_log, &mut stats) {
+            failure = Some(json!({"sequence": sidx, "base": base.name, "what": e, "ops": ops_log}));
+            break;
+        }
+        seqs.push(json!({"first": start + 1, "last": w.1, "base": base.name, "ops": ops_log}));
+    }
+    let n = w.finish();
+    println!("{}", json!({"events": n, "sequences": seqs.len(), "stats": stats, "failure": failure, "seqs": seqs}));
+}
+
 fn main() {
     quiet_panics();
     let args: Vec<String> = std::env::args().collect();
     match args.get(1).map(|s| s.as_str()) {
         Some("probe") => probe(),
         Some("probe_bsk") => probe_bsk(),
+        Some("roles") => cmd_roles(&args[2], args[3].parse().expect("n"), args.get(4).map(|s| s.as_str()).unwrap_or("quick")),
         Some("probe_lock") => probe_lock(),
         Some("merge") => cmd_merge(&args[2], args.get(3).map(|s| s.as_str()).unwrap_or("quick")),
         _ => {
